@@ -180,7 +180,8 @@ def run_check(mod, tier, seed):
     workdir = os.path.join(WORK, pid)
     os.makedirs(workdir, exist_ok=True)
     import mystic
-    assert os.path.abspath(mystic.__file__).startswith("/repo/"), mystic.__file__
+    repo = os.path.abspath(os.environ.get("VERIF_REPO", "/repo"))
+    assert os.path.abspath(mystic.__file__).startswith(repo + "/"), (mystic.__file__, repo)
     known = load_known(pid)
     lines, violations = [], []
 
